@@ -12,6 +12,7 @@ import (
 	"path"
 	"reflect"
 	"strconv"
+	"strings"
 	"sync"
 	"sync/atomic"
 	"time"
@@ -396,13 +397,25 @@ func handleStream(svr interface{}, serviceName string, desc *grpc.StreamDesc, st
 		}
 		defer cancel()
 
+		str := &serverStream{r: r, w: w, respStream: desc.ClientStreams, codec: codec}
+
 		// the request is accepted: its body is read to the end whatever the
-		// handler does (see handleMethod for why not before)
-		defer drainAndClose(r.Body)
+		// handler does (see handleMethod for why not before) - unless the
+		// client is still waiting for "100 Continue" before it sends the body:
+		// net/http sends that on the first read of the body and not at all once
+		// the reply has begun, so after a handler that answered without ever
+		// receiving, draining would wait for a body that is not coming, and
+		// the reply would never be finished; what net/http does with such a
+		// request (it closes the connection after the reply) is right
+		defer func() {
+			if expectsContinue(r) && !str.hasReceived() {
+				return
+			}
+			drainAndClose(r.Body)
+		}()
 
 		w.Header().Set("Content-Type", contentType)
 
-		str := &serverStream{r: r, w: w, respStream: desc.ClientStreams, codec: codec}
 		sts := internal.ServerTransportStream{Name: info.FullMethod, Stream: str}
 		str.ctx = grpc.NewContextWithServerTransportStream(ctx, &sts)
 		// however the handler ends - also by a panic, which net/http recovers -
@@ -470,6 +483,17 @@ func handleStream(svr interface{}, serviceName string, desc *grpc.StreamDesc, st
 
 		writeProtoMessage(w, codec, &tr, true)
 	}
+}
+
+// expectsContinue reports whether the client announced that it will wait for
+// "100 Continue" before it sends the request body.
+func expectsContinue(r *http.Request) bool {
+	for _, v := range r.Header["Expect"] {
+		if strings.EqualFold(strings.TrimSpace(v), "100-continue") {
+			return true
+		}
+	}
+	return false
 }
 
 // headerValue makes s safe to send as an HTTP header value. Control
@@ -629,6 +653,14 @@ func (s *serverStream) SendMsg(m interface{}) error {
 		s.writeFailed = true
 	}
 	return err
+}
+
+// hasReceived reports whether RecvMsg has been called (and has therefore
+// started to read the request body).
+func (s *serverStream) hasReceived() bool {
+	s.rmu.Lock()
+	defer s.rmu.Unlock()
+	return s.recvd > 0
 }
 
 func (s *serverStream) RecvMsg(m interface{}) error {
